@@ -35,6 +35,7 @@ type Obligation struct {
 	Bounded string
 	File    string
 	Alts    []*Obligation // per-return-point split of a merged post-condition
+	Pre     bool          // already decided at generation time (ground evaluation)
 	HasAlts bool
 }
 
@@ -92,6 +93,8 @@ type FuncVC struct {
 	freshRefs  map[string]bool
 	keyGoType  map[string]types.Type
 	opaque     map[string]*opaqueInfo
+	tables     map[string]*tableInfo
+	lemmaName  string
 	inlineDepth int
 	entryState *State
 	tier string
@@ -123,6 +126,7 @@ type Frame struct {
 	loopOrd map[*ssa.BasicBlock]int
 	escapes map[*ssa.Alloc]bool
 	loopHeads map[int]*State
+	loopEntries map[int]*State
 	callOrd map[ssa.Instruction]int
 	results []Val // set while checking ensures
 	// current position for diagnostics
@@ -270,6 +274,7 @@ func (vc *FuncVC) subRef(st types.Type, f int, r Term) Term {
 		vc.extraDecls = append(vc.extraDecls, fmt.Sprintf("(declare-fun %s (Int) Int)", name))
 		tag := len(vc.subFuncs)
 		vc.extraDecls = append(vc.extraDecls, fmt.Sprintf("(define-fun tag_%s () Int %d)", name, tag))
+		vc.extraDecls = append(vc.extraDecls, fmt.Sprintf("(assert (forall ((r Int)) (! (and (= (reftag (%s r)) tag_%s) (= (refowner (%s r)) r) (= (refroot (%s r)) (refroot r)) (=> (not (= r 0)) (> (%s r) 0))) :pattern ((%s r)))))", name, name, name, name, name, name))
 	}
 	t := app(SInt, name, r) // canonical term: the same sub-object has the same text everywhere
 	if vc.freshRefs[r.S] {
@@ -293,6 +298,13 @@ func (vc *FuncVC) elemRef(base, idx Term) Term {
 		ix = app(SInt, "bv2nat", idx)
 	}
 	t := app(SInt, "elemref", base, ix)
+	if ti, ok := vc.tables[base.S]; ok && ti.level+1 < len(ti.data.dims) {
+		sub := &tableInfo{term: mkSelect(ti.term, idx), data: ti.data, level: ti.level + 1, offset: -1}
+		if c, ok := termConst(idx); ok && ti.offset >= 0 {
+			sub.offset = ti.offset + c.Int64()*ti.data.dims[ti.level+1]
+		}
+		vc.tables[t.S] = sub
+	}
 	if vc.freshRefs[base.S] {
 		vc.freshRefs[t.S] = true
 	}
@@ -326,6 +338,8 @@ func (vc *FuncVC) loadFlat(st *State, lv *LV, t types.Type) *FV {
 		case LCell:
 			arr := vc.heapGet(st, "C|"+lv.Key+"|"+l.Name, SArr(SInt, l.Sort))
 			x = mkSelect(arr, lv.Ref)
+		case LTable:
+			x = mkSelect(lv.Ref, lv.Idx)
 		case LGlobal:
 			x = vc.heapGet(st, "G|"+lv.Key+"|"+l.Name, l.Sort)
 			vc.globalFacts(lv.Key, t)
@@ -365,6 +379,8 @@ func (vc *FuncVC) storeFlat(st *State, lv *LV, v *FV) {
 			nv := vc.sc.Def(key, mkStore(arr, lv.Ref, v.L[i]))
 			vc.prov[nv.S] = provInfo{kind: 0, parent: arr.S, ref: lv.Ref}
 			vc.heapSet(st, key, nv)
+		case LTable:
+			vc.unsupportedf("store into an immutable global table")
 		case LGlobal:
 			key := "G|" + lv.Key + "|" + l.Name
 			vc.heapGet(st, key, l.Sort)
@@ -376,7 +392,7 @@ func (vc *FuncVC) storeFlat(st *State, lv *LV, v *FV) {
 }
 
 func (vc *FuncVC) noteKeyType(lv *LV, t types.Type) {
-	if len(vc.enc.Leaves(t)) != 1 {
+	if len(vc.enc.Leaves(t)) != 1 || lv.Kind == LTable {
 		return
 	}
 	var key string
@@ -487,7 +503,53 @@ func (vc *FuncVC) globalRef(name string) Term {
 	t := vc.sc.DeclP("global_"+name, SInt)
 	vc.sc.AssumeP(mkAnd(app(SBool, ">", t, intLit64(0)), mkEq(app(SInt, "reftag", t), intLit64(-3)), mkEq(app(SInt, "refroot", t), t), app(SBool, "<", t, vc.entryState.Alloc)), "global object")
 	vc.globalRefs[name] = t
+	if td := vc.prog.GlobalTable(name); td != nil {
+		vc.makeTable(name, t, td)
+	}
 	return t
+}
+
+type tableInfo struct {
+	term   Term // SMT array (of arrays) holding the remaining dimensions
+	data   *tableData
+	level  int   // how many dimensions have been indexed away
+	offset int64 // flattened offset of this sub-table, -1 if an index was symbolic
+}
+
+// makeTable declares the constant contents of an immutable global array as a
+// persistent SMT array, separate from the mutable heap.
+func (vc *FuncVC) makeTable(name string, ref Term, td *tableData) {
+	enc := vc.enc
+	es := enc.scalarSort(td.elem)
+	rowSort := SArr(enc.Idx(), es)
+	lit := func(v *bigInt) Term { return enc.constInt(v, td.elem) }
+	row := func(base int64, n int64) Term {
+		t := enc.zeroTerm(rowSort)
+		for i := int64(0); i < n; i++ {
+			if td.vals[base+i].Sign() != 0 {
+				t = mkStore(t, enc.idxLit(i), lit(td.vals[base+i]))
+			}
+		}
+		return t
+	}
+	var sort Sort
+	var content Term
+	if len(td.dims) == 1 {
+		sort = rowSort
+		content = row(0, td.dims[0])
+	} else {
+		sort = SArr(enc.Idx(), rowSort)
+		content = enc.zeroTerm(sort)
+		for i := int64(0); i < td.dims[0]; i++ {
+			content = mkStore(content, enc.idxLit(i), row(i*td.dims[1], td.dims[1]))
+		}
+	}
+	tt := vc.sc.DeclP("table_"+name, sort)
+	vc.sc.AssumeP(mkEq(tt, content), "constant contents of "+name+" (evaluated from its initialiser)")
+	if vc.tables == nil {
+		vc.tables = map[string]*tableInfo{}
+	}
+	vc.tables[ref.S] = &tableInfo{term: tt, data: td}
 }
 
 // freshVal declares a fresh value of type t (havoc) and assumes its type invariant.
@@ -508,12 +570,14 @@ func (vc *FuncVC) freshValNoAssume(hint string, t types.Type) Val {
 		}
 		return sv
 	case *types.Array:
-		if isAggregate(u.Elem()) {
+		ls, ok := enc.arrayLeafSorts(t)
+		if !ok {
 			vc.unsupportedf("array value with aggregate elements: %s", t)
 		}
+		_ = u
 		av := &AV{T: t}
-		for _, l := range enc.Leaves(u.Elem()) {
-			av.L = append(av.L, vc.sc.Decl(hint+"."+l.Name, SArr(enc.Idx(), l.Sort)))
+		for _, srt := range ls {
+			av.L = append(av.L, vc.sc.Decl(hint, srt))
 		}
 		return av
 	case *types.Tuple:
@@ -548,7 +612,20 @@ func (vc *FuncVC) loadObj(st *State, ref Term, t types.Type) Val {
 		return sv
 	case *types.Array:
 		if isAggregate(u.Elem()) {
-			vc.unsupportedf("load of array with aggregate elements: %s", t)
+			inner, ok := u.Elem().Underlying().(*types.Array)
+			if !ok || u.Len() > 16 || isAggregate(inner.Elem()) {
+				vc.unsupportedf("load of array with aggregate elements: %s", t)
+			}
+			av := &AV{T: t}
+			for _, l := range enc.Leaves(inner.Elem()) {
+				arr := vc.heapGet(st, vc.memKey(inner.Elem(), l.Name), SArr(SInt, SArr(enc.Idx(), l.Sort)))
+				cur := enc.zeroTerm(SArr(enc.Idx(), SArr(enc.Idx(), l.Sort)))
+				for i := int64(0); i < u.Len(); i++ {
+					cur = mkStore(cur, enc.idxLit(i), mkSelect(arr, vc.elemRef(ref, enc.idxLit(i))))
+				}
+				av.L = append(av.L, vc.sc.Def("arr2d", cur))
+			}
+			return av
 		}
 		av := &AV{T: t}
 		for _, l := range enc.Leaves(u.Elem()) {
@@ -576,6 +653,19 @@ func (vc *FuncVC) storeObj(st *State, ref Term, v Val) {
 		}
 	case *AV:
 		u := x.T.Underlying().(*types.Array)
+		if inner, ok := u.Elem().Underlying().(*types.Array); ok {
+			for li, l := range enc.Leaves(inner.Elem()) {
+				key := vc.memKey(inner.Elem(), l.Name)
+				for i := int64(0); i < u.Len(); i++ {
+					arr := vc.heapGet(st, key, SArr(SInt, SArr(enc.Idx(), l.Sort)))
+					er := vc.elemRef(ref, enc.idxLit(i))
+					nv := vc.sc.Def(key, mkStore(arr, er, mkSelect(x.L[li], enc.idxLit(i))))
+					vc.prov[nv.S] = provInfo{kind: 0, parent: arr.S, ref: er}
+					vc.heapSet(st, key, nv)
+				}
+			}
+			return
+		}
 		for i, l := range enc.Leaves(u.Elem()) {
 			key := vc.memKey(u.Elem(), l.Name)
 			arr := vc.heapGet(st, key, SArr(SInt, SArr(enc.Idx(), l.Sort)))
@@ -693,6 +783,9 @@ func shortPath(p string) string {
 }
 
 func (vc *FuncVC) funcName() string {
+	if vc.fn == nil {
+		return vc.lemmaName
+	}
 	return funcKeyQualified(vc.fn)
 }
 
